@@ -40,7 +40,7 @@ from odml.tools.odmlparser import ODMLReader, ODMLWriter
 from odml.tools.converters import VersionConverter as VerConf
 
 
-def run_rdf_export(odml_file, export_dir):
+def run_rdf_export(odml_file, export_dir, source_format="XML"):
     """
     Convert an odML file to an XML RDF file and
     export it to an export directory with the
@@ -48,10 +48,12 @@ def run_rdf_export(odml_file, export_dir):
     ending.
     :param odml_file: odML file to be converted to RDF.
     :param export_dir:
+    :param source_format: File format of the odML file. XML, JSON and YAML
+                          are supported, default is XML.
     """
     out_name = os.path.splitext(os.path.basename(odml_file))[0]
     out_file = os.path.join(export_dir, "%s.rdf" % out_name)
-    doc = ODMLReader().from_file(odml_file)
+    doc = ODMLReader(source_format).from_file(odml_file)
     ODMLWriter("RDF").write_file(doc, out_file)
 
 
@@ -79,7 +81,7 @@ def run_conversion(file_list, output_dir, rdf_dir, report, source_format="XML"):
         try:
             odml.load(file_path, source_format)
             report.write("[Info] RDF conversion of '%s'\n" % file_path)
-            run_rdf_export(file_path, rdf_dir)
+            run_rdf_export(file_path, rdf_dir, source_format)
         except Exception as exc:
             out_name = os.path.splitext(os.path.basename(file_path))[0]
             outfile = os.path.join(output_dir, "%s_conv.xml" % out_name)
